@@ -4,7 +4,7 @@
    ServerPairs.v (a failed item write is local). *)
 From ZV Require Import Server.Server Server.ServerSpec Server.ServerStruct Server.ServerQueue
   Server.ServerInv Server.ServerPairs Server.ServerThms Server.ServerLocal Server.ServerNonint
-  Server.ServerExamples.
+  Server.RoundRobin Server.ServerRR Server.ServerExamples.
 
 (* Items are delivered in order, for every script and every stream name: what the streams named
    [key] have yielded so far, followed by what is still queued for that name, is exactly what the
@@ -78,6 +78,23 @@ Theorem C10_stream_reference :
                then ref_view P L c fs (pushes P c E) (proj P L c s0) else [].
 Proof. exact view_determined. Qed.
 Print Assumptions C10_stream_reference.
+
+(* While streams are open the other clients are still served: whatever is parked in the stream list and
+   whatever is queued for the streams, when nothing waits at the listener and some connection b in
+   the call list has a complete call available ([ready], the code's own delivery rule), this very
+   iteration is a get_next_call iteration: it yields an index i, handles that connection's call,
+   records i as the last winner, and polls no stream (no yield, stream queue and stream winner
+   untouched).  Which connection: the round-robin order — by C18_bounded_across_transitions b itself
+   is chosen after fewer than n * (k + 1) other calls. *)
+Theorem C10_others_served_meanwhile :
+  forall (P : params) (s : sv P) (b : nat),
+  accq s = [] -> b < length (conns s) -> ready P (conns s) b = true ->
+  exists i, call_winner P s = Some i /\ i < length (conns s) /\
+    forall st s' t, iteration P s = (st, s', t) ->
+      st = Progress /\ lastc s' = Some i /\ lasts s' = lasts s /\ squeue s' = squeue s /\
+      forall e, In e t -> match e with TSYield _ _ _ => False | _ => True end.
+Proof. exact others_served_meanwhile. Qed.
+Print Assumptions C10_others_served_meanwhile.
 
 (* A client that becomes unwritable mid-stream loses that subscription only: the failed write of
    an item removes that stream entry (stream and connection are dropped), leaves the call list, the
